@@ -2,7 +2,7 @@
 import histcheck
 
 PID = "C05"
-COMMON = ["hist", "-fanout", "-proj", "stake,dispute", "-boundary", "-gov", "-jumps", "-maxops", "6", "-dbias", "3", "-sbias", "3", "-valstatus"]
+COMMON = ["hist", "-fanout", "-valslash", "-proj", "stake,dispute", "-boundary", "-gov", "-jumps", "-maxops", "6", "-dbias", "3", "-sbias", "3", "-valstatus", "-stories", "90"]
 
 def run(tier, seed, replay):
     return histcheck.run(
